@@ -84,10 +84,21 @@ def gen_case(rng, tier):
                 kids[gi].append(k)
                 init.setdefault(G[0], {})[k] = state(rng)
     base['init'] = enc(init)
-    base['procs'].append({'at': [], 'name': 'actor',
-                          'schema': dict_schema([['g', dict_schema([], out=True)],
-                                                 ['h', dict_schema([], out=True)]]),
-                          'topo': dict_topo([['g', GLOBS[0]], ['h', GLOBS[1]]])})
+    actor_schema = [['g', dict_schema([], out=True)], ['h', dict_schema([], out=True)]]
+    actor_topo = [['g', GLOBS[0]], ['h', GLOBS[1]]]
+    if rng.random() < 0.7:
+        # the children of the glob stores also hold a variable the probe did NOT declare
+        for nm, G in (('e', GLOBS[0]), ('f', GLOBS[1])):
+            actor_schema.append([nm, dict_schema([['*', dict_schema([['u9', leaf_schema(3)]])]])])
+            actor_topo.append([nm, G])
+        real = real + ['u9']
+        init = dec(base['init'])
+        for G in GLOBS:
+            for k, st in init.get(G[0], {}).items():
+                st['u9'] = rng.randrange(100, 200)
+        base['init'] = enc(init)
+    base['procs'].append({'at': [], 'name': 'actor', 'schema': dict_schema(actor_schema),
+                          'topo': dict_topo(actor_topo)})
     # the history
     ops = []
     for _ in range(rng.choice([3, 4, 5, 6])):
